@@ -93,6 +93,17 @@ MISSED = {
     "C01-8": "character strings were only built from Python text (UTF-8); `str_reencode` (strings received in another character set "
              "and passed on) added",
     "C03-8": "values inside an ANY were atomic or one level deep; `any_nested` (two and three levels, different context numbers) added",
+    "C04-19": "no announcement ever arrived while a request was outstanding; `iam_while_waiting` added",
+    "C04-21": "NOT a violation of C04 as stated (one outcome, a legal abort, inside the time bound): the quick tier of C04 stays silent; "
+              "the same change is reported by C05 (`single-fault-not-repaired`)",
+    "C10-19": "no two stations shared a MAC across networks; `same_mac_clients` added",
+    "C10-20": "the device never heard two different network numbers; `renumbered` added",
+    "C10-21": "an abort counted as a reply even where the answer fits; `fitting_answer` (sizes around the boundary) added",
+    "C12-19": "the window stated in segments after the first was only range-checked; it must not exceed the receiver's grant",
+    "C16-13": "one station with two subscriber processes was in the thorough tier only; added to quick",
+    "C16-14": "needs three subscriptions with different lifetimes and a cancellation (five steps): the thorough tier's shapes do not "
+              "contain it and a quick instance did not exhaust in 25 minutes - NOT detected under C16; the scheduler defect itself is "
+              "what C14 `sched_ops` reports (seed C14-1 is the same change)",
     "C10-5": "no frame carried a source network; `routed_noise` (garbage claiming a remote source, then a relayed valid request) added",
 }
 
@@ -132,7 +143,7 @@ def main():
         total += 1
         det += 1 if m.get("detected_by_check") else 0
         print("| %s | %s | %s | %s |" % (name, heading(d, n), by if m.get("detected_by_check") else "**not detected**",
-                                       ("**missed at first**: " + MISSED[name]) if name in MISSED else ""))
+                                       (("**missed at first**: " if m.get("detected_by_check") else "") + MISSED[name]) if name in MISSED else ""))
     print()
     print("%d changes, %d detected by the quick tier as committed, %d of them only after the harness was strengthened."
           % (total, det, len([k for k in MISSED if os.path.exists(os.path.join(root, k))])))
